@@ -46,6 +46,19 @@ func runC04(c *Ctx) {
 			}
 		}
 		r.Check("C04-W1", u.Name+": the v1 request list that is marshalled into the entry contains this request", "", okList, "")
+		// the proposed entry owns its bytes: the marshalled request is copied out of the pooled buffer (raft keeps the
+		// entry in its log long after the buffer was handed to the next request)
+		for _, st := range u.Match(an.StoreTerm("e.Data")) {
+			t := defTermOf(u, st)
+			ok := t == "p1.Data" || strings.HasPrefix(t, "make([]byte, ")
+			r.Check("C04-W1", u.Name+": the entry's data is the request's own bytes or a fresh copy, never the pooled buffer", u.Pos(st.Pos), ok, "e.Data = "+t)
+		}
+		r.Require("C04-W1", u, an.Call("builtin.copy"), "the marshalled bytes must be copied out of the pooled buffer")
+		// a recycled waiter object starts with an empty completion channel: a late Trigger for the previous user of the
+		// object (after its timeout) may have left a signal in it
+		r.Order("C04-W1", u, reg, []an.M{an.Edge("0 == len(wrh.done)"), an.StoreTerm("wrh.done")}, an.OrderOpts{Min: 1})
+		r.StoreValues("C04-W1", u, an.StoreTerm("wrh.done"), []string{"make(chan struct{}, 1)"}, 1)
+		r.ArgValues("C04-W1", u, reg, 1, []string{"wrh.done"}, 1)
 		// a failed proposal is answered with the error under the same id
 		r.ArgValues("C04-W1", u, an.Call("pkg/wait.Wait.Trigger"), 0, []string{"p1.Header.ID"}, 1)
 	}
